@@ -62,12 +62,12 @@ func VP_C17_ConditionParser() {
 	kinds := []string{"score", "entropy", "time", "Score"}
 	seps := []string{" ", "  \t", ""}
 	ops := []string{">=", ">"}
-	nums := []string{"4", "5", "007", "18446744073709551615", "18446744073709551616", ""}
+	nums := []string{"4", "5", "007", "010", "0x3", "1_0", "18446744073709551615", "18446744073709551616", ""}
 	tails := []string{"", " x"}
 	if vpTier() == 0 {
 		seps = seps[:2]
 		kinds = []string{"score", "time", "Score"}
-		nums = []string{"4", "5", "18446744073709551616", ""}
+		nums = []string{"4", "5", "010", "0x3", "18446744073709551616", ""}
 	}
 	kindS := kinds[vpChoose("kind", len(kinds))]
 	opS := ops[vpChoose("op", len(ops))]
@@ -149,6 +149,9 @@ func VP_C17_WritePathsGate() {
 	s.policy = pol
 	before := vpFsSnapshot(base)
 	pw := vpStr("password", 2)
+	if vpChoose("same-as-stored", 2) == 1 {
+		pw = "rootpw" // re-submitting the password that is already stored is a write like any other
+	}
 	var rerr error
 	st := s.GetInterface()
 	switch op {
